@@ -67,6 +67,24 @@ PROPERTIES["C14"] = {
     "assumptions": ["the suffix only relates suffix instances; survivors of the prefix are never related to them", "sampling, not enumeration", "bounds: <=5 suffix instances, <=6 suffix assertions, <=3 prefix rounds or <=25 random prefix ops"],
 }
 
+PROPERTIES["C13"] = {
+    "machine": "lifecycle_sim",
+    "engine": "Sim-L",
+    "level": "exploration",
+    "level_text": "Seeded search over histories of instance creation, reference drops, reference cycles, gc, sweeps, SymbolGraph clear/re-creation, variable declarations, queries (drained, partially consumed and held, partially consumed and dropped), re-evaluations and resumptions over a class hierarchy with single, multiple and diamond inheritance. After every query the result multiset is compared with a weak-reference census: every instance of the type (or a subclass) that the program still holds and that was created before the query started must be there, once; nothing of another type, no None, no duplicate; instances awaiting collection, pre-clear instances and changes made while an evaluation was open are explicit don't-cares.",
+    "design_ref": "DESIGN.md section 5, C13",
+    "level_note": "Trusted: the harness hierarchy and handle table, the census (weak references + creation sequence numbers). The oracle accepts both readings of clear() (instances of the old graph may or may not appear).",
+    "technique": "deterministic simulation: scheduled reference drops / gc / sweep / graph clear against a weak-reference census oracle with explicit don't-cares; ddmin-minimised op list as replay",
+    "tiers": {
+        "quick": {"runs": 8000, "wall_s": 150, "triage_s": 60},
+        "thorough": {"runs": 500000, "wall_s": 3000, "triage_s": 300},
+    },
+    "cfg": {},
+    "rule": "one run = one op list (6-41 ops: create/drop/tie/gc/sweep/clear/declare/query/requery/resume) over T0<-T1<-T2, T0<-T3, T4(T1,T3), U0. Non-trivial: a query that is preceded by a drop, gc or clear, or that re-evaluates a query object / uses a variable declared earlier. Distinct: hash of the abstract history (op kinds with class names and query modes).",
+    "components": ["real: let()/an()/entity() and the EQL engine, SymbolGraph (add_node, remove_dead_instances, get_instances_of_type, clear), Symbol.__new__ registration, CPython refcounting and gc", "stub: the Symbol class hierarchy (sim/worlds/oworld.py), the program's handle table"],
+    "assumptions": ["sampling, not enumeration", "bounds: <=41 ops, <=12 live instances", "must-contain is restricted to instances the program holds in its handle table at the end of the query"],
+}
+
 # <<NEW-PROPERTIES>>
 
 ENGINES = {
@@ -96,5 +114,5 @@ NOT_APPLICABLE = {
     "C11": "pattern matching vs explicit query: pure in (pattern, data); " + _PURE,
     "C12": "predicates/symbolic functions, concrete vs symbolic call: pure in (signature, call shape, binding); " + _PURE,
     "C18": "JSON round trip: pure in the value; " + _PURE,
-    "C13": _WIP, "C15": _WIP, "C16": _WIP, "C17": _WIP, "C19": _WIP, "C20": _WIP,
+    "C15": _WIP, "C16": _WIP, "C17": _WIP, "C19": _WIP, "C20": _WIP,
 }
